@@ -315,11 +315,9 @@ def make_subset_data(data, pixels=None, return_selection=False, seed=None):
     if seed is not None:
         np.random.seed(seed)
     flat_data = flat(data)
-    if 'flat' in data.dims:
-        # data that is already a subset: one entry of x and y per pixel
-        tot_pix = data.sizes['flat']
-    else:
-        tot_pix = len(data.x) * len(data.y)
+    # (not len(x) * len(y): an image can have several z planes, and data
+    # that is already a subset has one entry of x and y per pixel)
+    tot_pix = flat_data.sizes['flat']
     selection = np.random.choice(tot_pix, pixels, replace=False)
     subset = flat_data.isel(flat=selection)
     if 'flat' in data.dims:
